@@ -205,6 +205,18 @@ func c14Scenarios() []c14Scenario {
 		{Name: "node cache: INSERT, DELETE, vacuum everything, replay of the INSERT at its original write_time", EPN: 2, Cache: 100, Build: buildPlain(2), Stmts: []c14Stmt{open, insAt(50, 200, false), delAt(50, 210), vacuumAll, insAt(50, 200, true)}},
 		{Name: "node cache, single node: INSERT, DELETE, vacuum everything, replay of the INSERT", EPN: 4096, Cache: 100, Build: buildPlain(4096), Stmts: []c14Stmt{open, insAt(50, 200, false), delAt(50, 210), vacuumAll, insAt(50, 200, true)}},
 	}
+	// a table emptied by DELETE and then vacuumed with a cutoff after everything: vacuum's "empty current version
+	// may be deleted too" branch reads and deletes the version the handle is at
+	// (WHERE a<=8 = every base row: the model applies an errored write after the acknowledged ones, so the
+	// statement must commute with the later INSERT 50)
+	delAll := c14Stmt{Name: "DELETE all rows", Kind: "write", SQL: "delete from {T} where a<=8", Apply: func(m map[int][2]string) {
+		for k := range m {
+			if k <= 8 {
+				delete(m, k)
+			}
+		}
+	}}
+	all = append(all, c14Scenario{Name: "emptied table: open, DELETE all, vacuum everything, SELECT, INSERT, SELECT", EPN: 4096, Build: buildPlain(4096), Stmts: []c14Stmt{open, delAll, vacuumAll, selAllS, ins(50), selAllS}})
 	// vacuum deletes objects in map order: every scenario with a vacuum also in the opposite (descending) order
 	n := len(all)
 	for i := 0; i < n; i++ {
@@ -557,6 +569,21 @@ func c14Worker(raw json.RawMessage) *engine.Result {
 		lost := "state-not-explained"
 		if len(frows) < len(candidates[0]) {
 			lost = "acknowledged-write-lost"
+		} else if hasVacuum && len(errored) == 0 && len(frows) > len(candidates[0]) && (strings.Contains(fired, "/root/merged/") || (strings.Contains(fired, "DELETE ") && strings.Contains(fired, "/root/current/"))) && strings.HasPrefix(firedStmt, "DELETE") {
+			// the failing request was one of the two (deliberately unreported) requests that retire the version
+			// superseded by an acknowledged DELETE (copy under root/merged/, removal from root/current/), a vacuum
+			// followed, and MORE rows are visible than were acknowledged
+			have := map[string]bool{}
+			for _, r := range frows {
+				have[r] = true
+			}
+			super := true
+			for _, r := range candidates[0] {
+				super = super && have[r]
+			}
+			if super {
+				lost = "deleted-rows-return-after-vacuum:retiring-the-superseded-version-failed"
+			}
 		}
 		viol(lost, "after the fault cleared a new connection sees %v; acknowledged writes give %v (errored statements: %d)", frows, candidates[0], len(errored))
 	}
